@@ -247,7 +247,7 @@ func ZeroMemProbe(f Fork, variant int, size int, other *common.Address) []byte {
 	retAll := func() { a.Op(MSIZE).Push(0).Op(RETURN) }
 	switch v := ((variant % NumZeroMemProbes) + NumZeroMemProbes) % NumZeroMemProbes; v {
 	case 1:
-		a.Push(size - 32).Op(MLOAD, POP)
+		a.Push(size-32).Op(MLOAD, POP)
 		retAll()
 	case 2:
 		a.Push(size).Push(0).Op(KECCAK256, POP)
@@ -273,7 +273,7 @@ func ZeroMemProbe(f Fork, variant int, size int, other *common.Address) []byte {
 			pushAll(a, f)
 			a.Op(CALL, POP)
 		}
-		a.Push(size - 32).Op(MLOAD, POP)
+		a.Push(size-32).Op(MLOAD, POP)
 		retAll()
 	default:
 		a.Push(size).Push(0).Op(RETURN)
